@@ -310,7 +310,7 @@ func main() {
 		for {
 			signal := <-sigChan
 			log.Printf("Received signal: %s. Reloading geoip databases.", signal)
-			if err = ctx.metrics.LoadGeoipDatabases(geoipDatabase, geoip6Database); err != nil {
+			if err := ctx.metrics.LoadGeoipDatabases(geoipDatabase, geoip6Database); err != nil {
 				log.Fatalf("reload of Geo IP databases on signal %s returned error: %v", signal, err)
 			}
 		}
